@@ -79,6 +79,12 @@ pub fn cmd_c02(tier: &str, out: &str) {
         if !has_calls(ops) {
             let nfix = cap_at_least(s.len().min(48));
             emit(&mut ks, &s, ops, &run_push_n(nfix, ops, false), new_from_bytes, 2);
+            // small fixed buffers: an out-of-memory error must never turn into a shortened / altered payload later on
+            for cap in [1usize, 4, 6, 9] {
+                if cap < s.len() {
+                    emit(&mut ks, &s, ops, &run_push_n(cap, ops, false), new_from_bytes, 20 + cap as u16);
+                }
+            }
             emit(&mut ks, &s, ops, &run_stream::<Vec<u8>>(&s, 0), new_from_bytes, 4);
             emit(&mut ks, &s, ops, &run_reader_vec(&s, Src::Iter, 0), new_from_bytes, 7);
             emit(&mut ks, &s, ops, &run_reader_vec(&s, Src::Io, 0), new_from_bytes, 8);
@@ -363,15 +369,27 @@ pub fn cmd_c16(tier: &str, out: &str) {
         let ops: Vec<u32> = s.iter().map(|b| *b as u32).collect();
         let lo = if m.len() > 10 && tier != "thorough" { m.len().saturating_sub(6) } else { 0 };
         for cap in (lo..=m.len() + 1).filter(|c| *c <= 48) {
-            for fe in [2u16, 5, 10] {
+            for fe in [2u16, 5, 10, 16] {
+                if fe == 16 && cap < 2 {
+                    continue; // the recycled buffer is pre-filled with two stale bytes
+                }
                 n += 1;
                 let ev = match fe {
                     2 => run_push_n(cap, &ops, true),
+                    16 => run_push_from_buf_n(cap, &ops, true),
                     5 => run_stream_n(cap, &s, 0),
                     _ => run_reader_static_n(cap, &s, Src::Iter, 0),
                 };
                 let key = format!("{}|{:?}|{}|{:?}", fe, m, cap, ev);
-                ks.put(&key, || format!("{{\"m\":{},\"cap\":{},\"f\":{},\"fe\":{},\"e\":{}}}", jarr(m), cap, jarr(&follow), fe, jarr2(&ev)));
+                ks.put(&key, || format!("{{\"g\":[],\"m\":{},\"cap\":{},\"f\":{},\"fe\":{},\"e\":{}}}", jarr(m), cap, jarr(&follow), fe, jarr2(&ev)));
+                if fe == 16 || (fe == 2 && m.len() % 3 == 0) {
+                    // the same with one noise byte in front of the first frame
+                    let mut ops2 = vec![0xffu32];
+                    ops2.extend(&ops);
+                    let ev = if fe == 16 { run_push_from_buf_n(cap, &ops2, true) } else { run_push_n(cap, &ops2, true) };
+                    let key = format!("g{}|{:?}|{}|{:?}", fe, m, cap, ev);
+                    ks.put(&key, || format!("{{\"g\":[255],\"m\":{},\"cap\":{},\"f\":{},\"fe\":{},\"e\":{}}}", jarr(m), cap, jarr(&follow), fe, jarr2(&ev)));
+                }
             }
         }
     }
@@ -389,7 +407,7 @@ pub fn cmd_c16(tier: &str, out: &str) {
                 5 => run_stream_n(cap, &s, 0),
                 _ => run_reader_static_n(cap, &s, Src::Iter, 0),
             };
-            ks.put(&format!("big|{}|{}|{}|{}", l, cap, fe, fill), || format!("{{\"m\":{},\"cap\":{},\"f\":{},\"fe\":{},\"e\":{}}}", jarr(&m), cap, jarr(&follow), fe, jarr2(&ev)));
+            ks.put(&format!("big|{}|{}|{}|{}", l, cap, fe, fill), || format!("{{\"g\":[],\"m\":{},\"cap\":{},\"f\":{},\"fe\":{},\"e\":{}}}", jarr(&m), cap, jarr(&follow), fe, jarr2(&ev)));
         }
     }
     ks.finish("c16", &format!(",\"cases\":{}", n));
